@@ -696,7 +696,7 @@ func (x *Exec) frameObligations(st *State, mods []modObj, pos token.Pos) {
 		cond := []*Term{Le(IntLit(0), r), Le(r, st.entry.alloc)}
 		for _, m := range mods {
 			if m.key == key {
-				cond = append(cond, Not(Eq(r, m.ref)))
+				cond = append(cond, m.excludes(r))
 			}
 		}
 		g := &Term{Op: "forall", Sort: SBool, Bound: []*Term{r}, Args: []*Term{Implies(And(cond...), Eq(Select(h, r), Select(base, r)))}}
